@@ -160,7 +160,8 @@ Proof. intros H. revert cur. induction H as [|o t Ho Ht IH]; intros cur Hc; cbn;
 Definition inv_ops (c : cfg) (iss : issue) (ops : list op) : Prop :=
   (exists o rest, ops = o :: rest /\ o_gid o = Some (i_iid iss) /\ creates_comment o <> None) /\
   Forall (fun o => op_valid c o = true) ops /\
-  (forall o q m, In o ops -> o_k o = OEdit q m -> (q < length ops)%nat).
+  (forall o q m, In o ops -> o_k o = OEdit q m -> (q < length ops)%nat) /\
+  NoDup (gids ops).
 
 Definition In_ev (iss : issue) (e : event) : Prop :=
   match e with
@@ -223,7 +224,7 @@ Proof. intros Dd. unfold decide. rewrite Dd. cbn [andb].
 
 Lemma inv_ops_step c iss ok ops e : c_dedupe_labels c = true -> inv_ops c iss ops -> inv_ops c iss (step c iss ok ops e).
 Proof. intros Dd I. destruct (step_cases c iss ok ops e) as [->|[o [r [-> [D [V [_ [NM _]]]]]]]]; [exact I|].
-  destruct I as [[o0 [rest [E [G Cc]]]] [Va Tg]]. split; [|split].
+  destruct I as [[o0 [rest [E [G Cc]]]] [Va [Tg Nd]]]. split; [|split; [|split]].
   - exists o0, (rest ++ [o]). subst ops. auto.
   - apply Forall_app. split; [exact Va|]. constructor; [exact V|constructor].
   - intros x q m Hx Hk. rewrite app_length. cbn. apply in_app_or in Hx as [Hx|[<-|[]]].
@@ -232,7 +233,12 @@ Proof. intros Dd I. destruct (step_cases c iss ok ops e) as [->|[o [r [-> [D [V 
       * destruct (ev_kind e); try (exfalso; now apply (Hkind q m)).
         -- rewrite Hkind in Hk. discriminate.
         -- destruct Hkind as [Hk' _]. rewrite Hk' in Hk. inversion Hk; subst. cbn. lia.
-      * rewrite Hk' in Hk. inversion Hk; subst. apply resolve_one in R as [L _]. lia. Qed.
+      * rewrite Hk' in Hk. inversion Hk; subst. apply resolve_one in R as [L _]. lia.
+  - rewrite gids_app. destruct (decide_append c iss ops e o r Dd D) as [[Gi [_ [NoOne _]]]|[p [cur [Gi _]]]]; cbn; rewrite Gi; [|now rewrite app_nil_r].
+    assert (R1 : resolve (ev_id e) ops = LNone) by (destruct (resolve (ev_id e) ops) as [|p|] eqn:R; [reflexivity|exfalso; now apply (NoOne p)|congruence]).
+    apply resolve_none in R1. clear - Nd R1. induction (gids ops) as [|x l IH]; cbn; [constructor; [tauto|constructor]|].
+    inversion Nd; subst. constructor; [|apply IH; [assumption|intros X; apply R1; now right]].
+    intros X. apply in_app_or in X as [X|[X|[]]]; [contradiction|]. apply R1. now left. Qed.
 
 (* an event is settled when looking at it again changes nothing *)
 Definition settled (c : cfg) (iss : issue) (ops : list op) (e : event) : Prop := step c iss true ops e = ops.
@@ -259,7 +265,7 @@ Proof. intros Dd I. unfold settled.
       assert (T : comment_text (ops ++ [o]) (length ops) = Some (cleanup (note_body e))).
       { unfold comment_text. rewrite nth_error_app2 by lia. rewrite Nat.sub_diag. cbn. unfold creates_comment. rewrite Hkind.
         f_equal. rewrite last_edit_app. cbn. rewrite Hkind.
-        destruct I as [_ [_ Tg]]. clear - Tg. revert Tg. generalize (cleanup (note_body e)) as m. generalize (length ops) as n.
+        destruct I as [_ [_ [Tg _]]]. clear - Tg. revert Tg. generalize (cleanup (note_body e)) as m. generalize (length ops) as n.
         intros n m Tg. assert (forall l, (forall o q m, In o l -> o_k o = OEdit q m -> (q < n)%nat) -> last_edit n l m = m).
         { induction l as [|x l IH]; intros H; cbn; [reflexivity|]. destruct (o_k x) eqn:Kx; try (apply IH; intros; eapply H; eauto; now right).
           destruct (Nat.eqb_spec n target).
@@ -301,7 +307,7 @@ Proof. intros Dd I [ND NI] He He' S E'.
   destruct (step_cases c iss ok ops e') as [X|[o [r [X [D' [V' [_ [NM' NE']]]]]]]]; [rewrite X in E'; symmetry in E'; exfalso; exact (app_one_neq _ _ E')|].
   rewrite X in E'. apply app_inv_head in E'. inversion E'; subst o'. clear E' X.
   unfold settled. destruct (step_cases c iss true (ops ++ [o]) e) as [X|[o2 [r2 [_ [D2 [V2 [_ [NM2 NE]]]]]]]]; [exact X|exfalso].
-  pose proof I as [[o0 [rest [Eops [G0 C0]]]] [Va Tg]].
+  pose proof I as [[o0 [rest [Eops [G0 C0]]]] [Va [Tg _]]].
   (* the id of a comment note is not the issue's IID, so it does not designate position 0 *)
   assert (NotZero : forall x, In_ev iss x -> ev_kind x = KComment -> resolve (ev_id x) ops = LOne 0 -> False).
   { intros x Hx Kx Rx. destruct (kcomment_is_note x Kx) as [n ->]. cbn in Hx, Rx.
@@ -694,10 +700,11 @@ Definition bug_ok (c : cfg) (iss : issue) (bugs : list bug) : Prop :=
   forall b, find_bug (i_iid iss) bugs = Some b -> inv_ops c iss (b_ops b).
 
 Lemma inv_ops_create c iss : op_valid c (create_op iss) = true -> inv_ops c iss [create_op iss].
-Proof. intros V. split; [|split].
+Proof. intros V. split; [|split; [|split]].
   - exists (create_op iss), []. repeat split. cbn. discriminate.
   - constructor; [exact V|constructor].
-  - intros o q m [<-|[]]. cbn. discriminate. Qed.
+  - intros o q m [<-|[]]. cbn. discriminate.
+  - cbn. constructor; [tauto|constructor]. Qed.
 
 (* first time *)
 Lemma issue_first c us p iss s : c_dedupe_labels c = true -> (1 <= p)%nat -> wf_issue iss -> rs_fault s = None -> bug_ok c iss (rs_bugs s) ->
@@ -1314,3 +1321,228 @@ Proof. intros Dd BO G. cbn zeta. unfold import_issue.
     unfold ops_of at 1 3. rewrite (find_put_same (mkbug (i_iid iss) ops1)). cbn [b_ops].
     split; [exists (d0 ++ d); now rewrite J4, Pre2, app_assoc|].
     intros g Hg. destruct (J5 g Hg) as [Y|Y]; [destruct (Gi2 g Y); auto|right; right; now apply Just]. Qed.
+
+(* ------------------------------------------------------------------ a whole run, a failure possibly pending *)
+
+Lemma firstn_app_skipn {A} p n (x : list A) : firstn p x ++ firstn n (skipn p x) = firstn (p + n) x.
+Proof. revert x. induction p as [|p IH]; intros x; cbn; [reflexivity|]. destruct x; cbn; [now rewrite firstn_nil|]. now rewrite IH. Qed.
+
+Lemma fetch_pages_prefix {A} (mk : nat -> req) p (l : list A) : forall fuel k s, (1 <= k)%nat ->
+  exists n, snd (fst (fetch_pages fuel mk p l k s)) = firstn n (skipn ((k - 1) * p) l).
+Proof. induction fuel as [|f IH]; intros k s Hk; cbn [fetch_pages]; [exists 0%nat; reflexivity|].
+  destruct (send (mk k) s) as [s1 ok]. destruct ok; cbn [negb]; [|exists 0%nat; reflexivity].
+  destruct (Nat.leb (npages p l) k); [exists p; reflexivity|].
+  destruct (IH (S k) s1 ltac:(lia)) as [n E]. destruct (fetch_pages f mk p l (S k) s1) as [[s2 rest] failed]. cbn [fst snd] in *.
+  exists (p + n)%nat. rewrite E. unfold page_of.
+  replace (S k - 1)%nat with (k - 1 + 1)%nat by lia. rewrite Nat.mul_add_distr_r, Nat.mul_1_l, skipn_add. apply firstn_app_skipn. Qed.
+
+Lemma NoDup_firstn {A} n (l : list A) : NoDup l -> NoDup (firstn n l).
+Proof. revert l. induction n; intros l H; cbn; [constructor|]. destruct l; [constructor|]. inversion H; subst. constructor; [|auto].
+  intros X. apply H2. now apply firstn_In' in X. Qed.
+
+Lemma issues_sound c us p base : c_dedupe_labels c = true -> forall l s,
+  NoDup (map i_iid l) -> (forall i, In i l -> bug_ok c i (rs_bugs s)) -> grown c us base (rs_idents s) ->
+  let r := import_issues c us p l s in
+  grown c us base (rs_idents (fst r)) /\ (forall i, In i l -> bug_ok c i (rs_bugs (fst r))) /\
+  (forall iid', ~ In iid' (map i_iid l) -> find_bug iid' (rs_bugs (fst r)) = find_bug iid' (rs_bugs s)) /\
+  (forall i, In i l -> (exists d, ops_of (i_iid i) (rs_bugs (fst r)) = ops_of (i_iid i) (rs_bugs s) ++ d) /\
+     forall g, In g (gids (ops_of (i_iid i) (rs_bugs (fst r)))) ->
+               In g (gids (ops_of (i_iid i) (rs_bugs s))) \/ g = i_iid i \/ justified_ev c us base i g).
+Proof. intros Dd. induction l as [|i t IH]; intros s ND BO G; cbn zeta.
+  - cbn. split; [exact G|]. split; [intros ? []|]. split; [auto|intros ? []].
+  - cbn [import_issues]. cbn in ND. inversion ND as [|? ? Ni NDt]; subst.
+    pose proof (issue_sound c us p i s base Dd (BO i (or_introl eq_refl)) G) as X. cbn zeta in X.
+    destruct (import_issue c us p i s) as [s1 go]. cbn [fst snd] in X. destruct X as [X1 [X2 [X3 [X4 X5]]]].
+    assert (Neq : forall j, In j t -> i_iid j <> i_iid i) by (intros j Hj Eq; apply Ni; rewrite <- Eq; now apply in_map).
+    assert (Same1 : forall j, In j t -> ops_of (i_iid j) (rs_bugs s1) = ops_of (i_iid j) (rs_bugs s)) by (intros j Hj; unfold ops_of; rewrite X3; auto).
+    destruct go.
+    + assert (BO1 : forall j, In j t -> bug_ok c j (rs_bugs s1)) by (intros j Hj b Hb; apply (BO j (or_intror Hj)); rewrite <- Hb; symmetry; apply X3; auto).
+      specialize (IH s1 NDt BO1 X1). cbn zeta in IH. destruct (import_issues c us p t s1) as [s2 go2]. cbn [fst snd] in *.
+      destruct IH as [Y1 [Y2 [Y3 Y4]]].
+      assert (Same2 : ops_of (i_iid i) (rs_bugs s2) = ops_of (i_iid i) (rs_bugs s1)) by (unfold ops_of; now rewrite Y3).
+      split; [exact Y1|]. split; [|split].
+      * intros j [<-|Hj]; [|now apply Y2]. intros b Hb. apply X2. now rewrite <- Y3.
+      * intros iid' Nin. cbn in Nin. rewrite Y3 by tauto. apply X3. intros ->. apply Nin. now left.
+      * intros j [<-|Hj]; [rewrite Same2; split; assumption|]. destruct (Y4 j Hj) as [Z1 Z2]. rewrite (Same1 j Hj) in Z1, Z2. split; assumption.
+    + cbn [fst snd]. split; [exact X1|]. split; [|split].
+      * intros j [<-|Hj]; [exact X2|]. intros b Hb. apply (BO j (or_intror Hj)). rewrite <- Hb. symmetry. apply X3. auto.
+      * intros iid' Nin. apply X3. intros ->. apply Nin. cbn. now left.
+      * intros j [<-|Hj]; [split; assumption|]. rewrite (Same1 j Hj). split; [exists []; now rewrite app_nil_r|auto]. Qed.
+
+
+
+
+Lemma import_all_sound c t p since s base : c_dedupe_labels c = true -> wf_tracker t -> bugs_ok c t (rs_bugs s) -> grown c (t_users t) base (rs_idents s) ->
+  let r := import_all c t p since s in
+  grown c (t_users t) base (rs_idents (fst r)) /\ bugs_ok c t (rs_bugs (fst r)) /\
+  (forall iid', ~ In iid' (map i_iid (t_issues t)) -> find_bug iid' (rs_bugs (fst r)) = find_bug iid' (rs_bugs s)) /\
+  (forall i, In i (t_issues t) -> (exists d, ops_of (i_iid i) (rs_bugs (fst r)) = ops_of (i_iid i) (rs_bugs s) ++ d) /\
+     forall g, In g (gids (ops_of (i_iid i) (rs_bugs (fst r)))) ->
+               In g (gids (ops_of (i_iid i) (rs_bugs s))) \/ g = i_iid i \/ justified_ev c (t_users t) base i g).
+Proof. intros Dd W BO G. cbn zeta. unfold import_all.
+  pose proof (fetch_pages_core QIssues p (listed t since) (npages p (listed t since)) 1 s) as [A1 B1].
+  destruct (fetch_pages_prefix QIssues p (listed t since) (npages p (listed t since)) 1 s ltac:(lia)) as [n Pre].
+  change (fetch_pages (npages p (listed t since)) QIssues p (listed t since) 1 s) with (fetch_all QIssues p (listed t since) s) in *.
+  destruct (fetch_all QIssues p (listed t since) s) as [[s1 l] failed]. cbn [fst snd] in *. cbn in Pre.
+  destruct (listed_wf t since W) as [_ Nl]. destruct W as [Wt Nt].
+  assert (Inl : forall i, In i l -> In i (t_issues t)) by (intros i Hi; rewrite Pre in Hi; apply firstn_In' in Hi; now apply (listed_in t since)).
+  assert (NDl : NoDup (map i_iid l)) by (rewrite Pre, <- firstn_map; now apply NoDup_firstn).
+  assert (BO1 : forall i, In i l -> bug_ok c i (rs_bugs s1)) by (intros i Hi; rewrite B1; apply BO; auto).
+  assert (G1 : grown c (t_users t) base (rs_idents s1)) by now rewrite A1.
+  pose proof (issues_sound c (t_users t) p base Dd l s1 NDl BO1 G1) as X. cbn zeta in X.
+  destruct (import_issues c (t_users t) p l s1) as [s2 go]. cbn [fst snd] in X. destruct X as [X1 [X2 [X3 X4]]].
+  assert (Core : forall sx, rs_idents sx = rs_idents s2 -> rs_bugs sx = rs_bugs s2 ->
+            grown c (t_users t) base (rs_idents sx) /\ bugs_ok c t (rs_bugs sx) /\
+            (forall iid', ~ In iid' (map i_iid (t_issues t)) -> find_bug iid' (rs_bugs sx) = find_bug iid' (rs_bugs s)) /\
+            (forall i, In i (t_issues t) -> (exists d, ops_of (i_iid i) (rs_bugs sx) = ops_of (i_iid i) (rs_bugs s) ++ d) /\
+               forall g, In g (gids (ops_of (i_iid i) (rs_bugs sx))) ->
+                         In g (gids (ops_of (i_iid i) (rs_bugs s))) \/ g = i_iid i \/ justified_ev c (t_users t) base i g)).
+  { intros sx -> ->. rewrite <- B1.
+    assert (Dec : forall i, In i (t_issues t) -> In i l \/ ~ In (i_iid i) (map i_iid l)).
+    { intros i Hi. destruct (in_dec N.eq_dec (i_iid i) (map i_iid l)) as [Y|Y]; [left|now right].
+      apply in_map_iff in Y as [j [Ej Hj]]. assert (j = i) by (apply (NoDup_map_inj i_iid (t_issues t) j i Nt (Inl j Hj) Hi Ej)). now subst. }
+    split; [exact X1|]. split; [|split].
+    - intros i Hi. destruct (Dec i Hi) as [Y|Y]; [now apply X2|]. intros b Hb. apply (BO i Hi). rewrite <- B1, <- Hb. symmetry. now apply X3.
+    - intros iid' Nin. apply X3. intros Y. apply Nin. apply in_map_iff in Y as [j [Ej Hj]]. rewrite <- Ej. apply in_map. auto.
+    - intros i Hi. destruct (Dec i Hi) as [Y|Y]; [now apply X4|].
+      assert (E : ops_of (i_iid i) (rs_bugs s2) = ops_of (i_iid i) (rs_bugs s1)) by (unfold ops_of; now rewrite X3).
+      rewrite E. split; [exists []; now rewrite app_nil_r|auto]. }
+  destruct (go && failed && c_list_error c); cbn [fst snd]; now apply Core. Qed.
+
+(* ------------------------------------------------------------------ events are identified by their id when ids are not shared *)
+
+(* the hypothesis forced by the proofs: the issue's IID and the ids of its notes, label events and state events
+   (four id sequences in GitLab, one metadata key in git-bug) are pairwise distinct *)
+Definition all_ids (iss : issue) : list N :=
+  i_iid iss :: map n_id (i_notes iss) ++ map l_id (i_labels iss) ++ map s_id (i_states iss).
+Definition ids_disjoint (iss : issue) : Prop := NoDup (all_ids iss).
+
+Lemma NoDup_app_parts {A} (a b : list A) : NoDup (a ++ b) -> NoDup a /\ NoDup b /\ forall x, In x a -> In x b -> False.
+Proof. induction a as [|x a IH]; cbn; intros H; [repeat split; [constructor|exact H|tauto]|].
+  inversion H; subst. destruct (IH H3) as [Na [Nb Dj]]. repeat split; [constructor; [|exact Na]|exact Nb|].
+  - intros X. apply H2. apply in_or_app. now left.
+  - intros y [<-|Hy] Hb; [apply H2; apply in_or_app; now right|eauto]. Qed.
+
+Lemma ids_disjoint_wf iss : ids_disjoint iss -> wf_issue iss.
+Proof. unfold ids_disjoint, all_ids, wf_issue. intros H. inversion H; subst.
+  apply NoDup_app_parts in H3 as [Nn _]. split; [exact Nn|]. intros X. apply H2. apply in_or_app. now left. Qed.
+
+Lemma ev_id_in_all iss e : In_ev iss e -> e <> EError -> In (ev_id e) (map n_id (i_notes iss) ++ map l_id (i_labels iss) ++ map s_id (i_states iss)).
+Proof. destruct e as [n|l|s|]; cbn; intros H NE; [| | |congruence]; apply in_or_app; [left|right; apply in_or_app; left|right; apply in_or_app; right]; now apply in_map. Qed.
+
+Lemma ev_id_not_iid iss e : ids_disjoint iss -> In_ev iss e -> e <> EError -> ev_id e <> i_iid iss.
+Proof. unfold ids_disjoint, all_ids. intros H He NE Eq. inversion H; subst. apply H2. rewrite <- Eq. now apply ev_id_in_all. Qed.
+
+Lemma ev_id_inj iss e e' : ids_disjoint iss -> In_ev iss e -> In_ev iss e' -> e <> EError -> e' <> EError -> ev_id e = ev_id e' -> e = e'.
+Proof. unfold ids_disjoint, all_ids. intros H He He' NE NE' Eq. inversion H as [|? ? _ H3]; subst.
+  apply NoDup_app_parts in H3 as [Nn [H4 D1]]. apply NoDup_app_parts in H4 as [Nl [Ns D2]].
+  destruct e as [n|l|s|], e' as [n'|l'|s'|]; cbn in *; try congruence.
+  - f_equal. eapply (NoDup_map_inj n_id); eauto.
+  - exfalso. apply (D1 (n_id n)); [now apply in_map|]. apply in_or_app. left. rewrite Eq. now apply in_map.
+  - exfalso. apply (D1 (n_id n)); [now apply in_map|]. apply in_or_app. right. rewrite Eq. now apply in_map.
+  - exfalso. apply (D1 (n_id n')); [now apply in_map|]. apply in_or_app. left. rewrite <- Eq. now apply in_map.
+  - f_equal. eapply (NoDup_map_inj l_id); eauto.
+  - exfalso. apply (D2 (l_id l)); [now apply in_map|]. rewrite Eq. now apply in_map.
+  - exfalso. apply (D1 (n_id n')); [now apply in_map|]. apply in_or_app. right. rewrite <- Eq. now apply in_map.
+  - exfalso. apply (D2 (l_id l')); [now apply in_map|]. rewrite <- Eq. now apply in_map.
+  - f_equal. eapply (NoDup_map_inj s_id); eauto. Qed.
+
+Lemma in_ev_in_evs iss e : In_ev iss e -> e <> EError -> In e (evs_of iss).
+Proof. intros H NE. unfold evs_of. apply sorted_events_complete. destruct e as [n|l|s|]; cbn in H; [left|right; left|right; right|congruence]; now apply in_map. Qed.
+
+(* ------------------------------------------------------------------ a run that is not stopped *)
+
+Definition no_stop (c : cfg) (us : list user) (l : list issue) (idents : list N) (bugs : list bug) : Prop :=
+  forall i, In i l -> person_ok c us idents (i_author i) = true /\ (find_bug (i_iid i) bugs <> None \/ op_valid c (create_op i) = true).
+
+Lemma issues_complete c us p : c_dedupe_labels c = true -> (1 <= p)%nat -> forall l s,
+  Forall wf_issue l -> NoDup (map i_iid l) -> rs_fault s = None -> (forall i, In i l -> bug_ok c i (rs_bugs s)) ->
+  no_stop c us l (rs_idents s) (rs_bugs s) -> snd (import_issues c us p l s) = true.
+Proof. intros Dd Hp. induction l as [|i t IH]; intros s W ND F BO NS; [reflexivity|].
+  cbn [import_issues]. inversion W as [|? ? Wi Wt]; subst. cbn in ND. inversion ND as [|? ? Ni NDt]; subst.
+  pose proof (issue_first c us p i s Dd Hp Wi F (BO i (or_introl eq_refl))) as X. cbn zeta in X.
+  destruct (import_issue c us p i s) as [s1 go]. cbn [fst snd] in X. destruct X as [X1 [X2 [X3 [X4 [X5 X6]]]]].
+  destruct go.
+  - apply IH; auto.
+    + intros j Hj b Hb. apply (BO j (or_intror Hj)). rewrite <- Hb. symmetry. apply X3. intros Eq. apply Ni. rewrite <- Eq. now apply in_map.
+    + intros j Hj. destruct (NS j (or_intror Hj)) as [A B]. split; [now rewrite (grown_ok c us _ _ _ X2)|].
+      rewrite X3; [exact B|]. intros Eq. apply Ni. rewrite <- Eq. now apply in_map.
+  - exfalso. destruct (X6 eq_refl) as [_ [_ [Y|[Y1 Y2]]]]; destruct (NS i (or_introl eq_refl)) as [A [B|B]]; congruence. Qed.
+
+(* ------------------------------------------------------------------ what a clean run that is not stopped imports: exactly the importable events whose
+   author is there and that were not imported yet (C16_incremental) *)
+
+Lemma ops_of_found iid bugs : ops_of iid bugs <> [] -> find_bug iid bugs <> None.
+Proof. unfold ops_of. destruct (find_bug iid bugs); [discriminate|congruence]. Qed.
+
+Lemma clean_char c t p since s : c_dedupe_labels c = true -> (1 <= p)%nat -> wf_tracker t ->
+  (forall i, In i (listed t since) -> ids_disjoint i) -> rs_fault s = None -> bugs_ok c t (rs_bugs s) ->
+  no_stop c (t_users t) (listed t since) (rs_idents s) (rs_bugs s) ->
+  let r := import_all c t p since s in
+  snd r = true /\ rs_fault (fst r) = None /\ grown c (t_users t) (rs_idents s) (rs_idents (fst r)) /\ bugs_ok c t (rs_bugs (fst r)) /\
+  forall i, In i (listed t since) ->
+    find_bug (i_iid i) (rs_bugs (fst r)) <> None /\
+    (exists d, ops_of (i_iid i) (rs_bugs (fst r)) = ops_of (i_iid i) (rs_bugs s) ++ d) /\
+    NoDup (gids (ops_of (i_iid i) (rs_bugs (fst r)))) /\
+    forall e, In_ev i e -> e <> EError -> ev_kind e <> KDesc ->
+      (In (ev_id e) (gids (ops_of (i_iid i) (rs_bugs (fst r)))) <->
+       In (ev_id e) (gids (ops_of (i_iid i) (rs_bugs s))) \/ (importable c e = true /\ person_ok c (t_users t) (rs_idents s) (ev_user e) = true)).
+Proof. intros Dd Hp W Dj F BO NS. cbn zeta.
+  pose proof (import_all_sound c t p since s (rs_idents s) Dd W BO (grown_refl _ _ _)) as Snd. cbn zeta in Snd.
+  destruct (import_all_clean c t p since s Hp F) as [s1 [[A1 [A2 [_ A4]]] E1]]. rewrite E1 in *.
+  destruct (listed_wf t since W) as [Wl Nl].
+  assert (F1 : rs_fault s1 = None) by congruence.
+  assert (BO1 : forall i, In i (listed t since) -> bug_ok c i (rs_bugs s1)) by (intros i Hi; rewrite A2; apply BO; now apply (listed_in t since)).
+  assert (NS1 : no_stop c (t_users t) (listed t since) (rs_idents s1) (rs_bugs s1)) by now rewrite A1, A2.
+  pose proof (issues_complete c (t_users t) p Dd Hp (listed t since) s1 Wl Nl F1 BO1 NS1) as Cm.
+  pose proof (issues_first c (t_users t) p Dd Hp (listed t since) s1 Wl Nl F1 BO1) as X. cbn zeta in X.
+  destruct (import_issues c (t_users t) p (listed t since) s1) as [s2 go]. cbn [fst snd] in *. subst go.
+  destruct X as [X1 [X2 [_ [X4 _]]]]. destruct Snd as [S1 [S2 [_ S4]]]. rewrite A1 in X2.
+  split; [reflexivity|]. split; [exact X1|]. split; [exact X2|]. split; [exact S2|].
+  intros i Hi. pose proof (listed_in t since i Hi) as Hit. destruct (S4 i Hit) as [Pre Just]. destruct (X4 eq_refl i Hi) as [Au [b [FB [Ib [St En]]]]].
+  split; [congruence|]. split; [exact Pre|]. assert (Ob : ops_of (i_iid i) (rs_bugs s2) = b_ops b) by (unfold ops_of; now rewrite FB).
+  split; [rewrite Ob; apply Ib|].
+  intros e He NE NK. split.
+  - intros Hg. destruct (Just _ Hg) as [Y|[Y|[e' [He' [NE' [Eq [P' K']]]]]]]; [now left|exfalso; now apply (ev_id_not_iid i e (Dj i Hi))|].
+    assert (e' = e) by (apply (ev_id_inj i e' e (Dj i Hi)); auto). subst e'. right. destruct K' as [K'|K']; [now split|contradiction].
+  - intros [Hg|[Im Po]].
+    + destruct Pre as [d ->]. rewrite gids_app. apply in_or_app. now left.
+    + rewrite Ob. apply (settled_importable c i (b_ops b) e Ib); auto. apply St; [now apply in_ev_in_evs|].
+      now rewrite (grown_ok c (t_users t) _ _ _ X2). Qed.
+
+(* ------------------------------------------------------------------ C16_resume: a run in which one request fails, then a clean run: the same events are
+   imported as by a clean run *)
+
+Lemma resume_same c t p since idents bugs q : c_dedupe_labels c = true -> (1 <= p)%nat -> wf_tracker t ->
+  (forall i, In i (listed t since) -> ids_disjoint i) -> bugs_ok c t bugs ->
+  no_stop c (t_users t) (listed t since) idents bugs ->
+  let clean := fst (import_all c t p since (mkrs idents bugs [] [] None)) in
+  let failed := fst (import_all c t p since (mkrs idents bugs [] [] (Some q))) in
+  let resumed := fst (import_all c t p since (mkrs (rs_idents failed) (rs_bugs failed) [] [] None)) in
+  forall i, In i (listed t since) ->
+    find_bug (i_iid i) (rs_bugs resumed) <> None /\ find_bug (i_iid i) (rs_bugs clean) <> None /\
+    NoDup (gids (ops_of (i_iid i) (rs_bugs resumed))) /\ NoDup (gids (ops_of (i_iid i) (rs_bugs clean))) /\
+    forall e, In_ev i e -> e <> EError -> ev_kind e <> KDesc ->
+      (In (ev_id e) (gids (ops_of (i_iid i) (rs_bugs resumed))) <-> In (ev_id e) (gids (ops_of (i_iid i) (rs_bugs clean)))).
+Proof. intros Dd Hp W Dj BO NS. cbn zeta. intros i Hi.
+  set (s0 := mkrs idents bugs [] [] None). set (sq := mkrs idents bugs [] [] (Some q)).
+  pose proof (clean_char c t p since s0 Dd Hp W Dj eq_refl BO NS) as C0. cbn zeta in C0.
+  pose proof (import_all_sound c t p since sq idents Dd W BO (grown_refl _ _ _)) as Sf. cbn zeta in Sf.
+  destruct (import_all c t p since s0) as [sc dc]. destruct (import_all c t p since sq) as [sf df]. cbn [fst snd] in *.
+  destruct C0 as [_ [_ [_ [_ C0]]]]. destruct Sf as [Gf [BOf [_ Sf]]].
+  set (s1 := mkrs (rs_idents sf) (rs_bugs sf) [] [] None).
+  assert (NS1 : no_stop c (t_users t) (listed t since) (rs_idents s1) (rs_bugs s1)).
+  { intros j Hj. destruct (NS j Hj) as [A B]. cbn. split; [now rewrite (grown_ok c (t_users t) _ _ _ Gf)|].
+    destruct B as [B|B]; [left|now right]. destruct (Sf j (listed_in t since j Hj)) as [[d Pre] _]. apply ops_of_found. rewrite Pre.
+    unfold ops_of. destruct (find_bug (i_iid j) bugs) as [b|] eqn:FB; [|congruence].
+    destruct (BO j (listed_in t since j Hj) b FB) as [[o [rest [-> _]]] _]. cbn. discriminate. }
+  pose proof (clean_char c t p since s1 Dd Hp W Dj eq_refl BOf NS1) as C1. cbn zeta in C1.
+  destruct (import_all c t p since s1) as [sr dr]. cbn [fst snd] in *. destruct C1 as [_ [_ [_ [_ C1]]]].
+  destruct (C0 i Hi) as [Fc [_ [Nc Hc]]]. destruct (C1 i Hi) as [Fr [_ [Nr Hr]]].
+  destruct (Sf i (listed_in t since i Hi)) as [[d Pre] Just].
+  split; [exact Fr|]. split; [exact Fc|]. split; [exact Nr|]. split; [exact Nc|].
+  intros e He NE NK. rewrite (Hr e He NE NK), (Hc e He NE NK). cbn [rs_idents rs_bugs s0 s1].
+  rewrite (grown_ok c (t_users t) _ _ _ Gf). split.
+  - intros [Hg|Hg]; [|now right]. destruct (Just _ Hg) as [Y|[Y|[e' [He' [NE' [Eq [P' K']]]]]]]; [now left|exfalso; now apply (ev_id_not_iid i e (Dj i Hi))|].
+    assert (e' = e) by (apply (ev_id_inj i e' e (Dj i Hi)); auto). subst e'. right. destruct K' as [K'|K']; [now split|contradiction].
+  - intros [Hg|Hg]; [|now right]. left. rewrite Pre, gids_app. apply in_or_app. now left. Qed.
